@@ -215,7 +215,7 @@ def s07_network(ctx):
     """the same judge, cropping the documented way: Network(truncate_traces=True) -- z-coordinate removal, the defensive copies, the crop with the
     column data, the renumbering -- on frames with elevation values and every index kind, twice on the same caller's frame with different areas"""
     import_fractopo()
-    res = StreamResult("S07-network", rule="the frames and areas of S07-crop (index labels default / ints / strings / reversed / shuffled; no duplicated labels), half of them "
+    res = StreamResult("S07-network", rule="the frames and areas of S07-crop (index labels default / ints / strings / reversed / shuffled / duplicated), half of them "
                        "with Z values on every vertex, cropped by Network(truncate_traces=True).trace_gdf, twice on the SAME caller's frame with two different "
                        "area sets; the exact clip decides coverage, length, attribute carry-over; the caller's frames must stay as they were; "
                        "non-trivial = some row is cut into several pieces")
@@ -224,7 +224,7 @@ def s07_network(ctx):
     for _ in range(budget(ctx.tier, 60, 1500)):
         kind, areas = gen_areas(rng)
         gdf, idx_mode = gen_frame(rng, areas)
-        if idx_mode == "dup":
+        if rng.random() < 0.2:
             idx_mode = "shuffled"
             gdf.index = index_for("shuffled", len(gdf))
         z = rng.random() < 0.5
